@@ -168,6 +168,20 @@ let answer kw =
       let wf = well_formed_b strict terms rules in
       let ds = List.map (fun c -> b2s (defect_b strict terms rules (z_of_int c))) [4;5;6;7;8;9;10;11;12;13;14;15;16] in
       string_of_int code ^ " " ^ b2s wf ^ " " ^ String.concat "" ds
+  | "DESC" ->
+      (* n bytes -> syntax | repeated | ok|name:code,...|lhs>sym sym>anode>cost>tr tr;...   (names in hex) *)
+      let n = next () in
+      let text = times n (fun () -> nat_of_int (next ())) in
+      let hex l = String.concat "" (List.map (fun b -> Printf.sprintf "%02x" (int_of_nat b)) l) in
+      (match desc_model text with
+       | DSyntax -> "syntax"
+       | DRepeatedCode -> "repeated"
+       | DOk (ts, rs) ->
+           "ok|" ^ String.concat "," (List.map (fun (nm, c) -> "x" ^ hex nm ^ ":" ^ string_of_int (int_of_z c)) ts) ^ "|" ^
+           String.concat ";" (List.map (fun r ->
+             "x" ^ hex r.s_lhs ^ ">" ^ String.concat " " (List.map (fun s -> "x" ^ hex s) r.s_rhs) ^ ">" ^
+             (match r.s_anode with Some a -> "x" ^ hex a | None -> "-") ^ ">" ^ string_of_int (int_of_z r.s_cost) ^ ">" ^
+             String.concat " " (List.map (fun z -> string_of_int (int_of_z z)) r.s_trans)) rs))
   | _ -> "error unknown query " ^ kw
 
 let () =
